@@ -1,0 +1,51 @@
+//go:build verif
+
+package lexer
+
+// Verification hooks (build tag verif). Observation only.
+
+// VerifLexLimitHit is the panic value raised when an iteration bound is exceeded.
+type VerifLexLimitHit struct {
+	What  string
+	Count int
+}
+
+// VerifLex is the per-process lexer monitor state.
+var VerifLex struct {
+	Iter        int // iterations of the Lexer.Next scanning loop since reset
+	IterLimit   int // 0 = unlimited
+	TLNext      int // TLexer.Next calls since reset
+	TLNextLimit int // 0 = unlimited
+}
+
+// VerifLexReset clears the counters.
+func VerifLexReset() {
+	VerifLex.Iter = 0
+	VerifLex.TLNext = 0
+}
+
+func verifLexIter(_ *Lexer) {
+	VerifLex.Iter++
+	if VerifLex.IterLimit > 0 && VerifLex.Iter > VerifLex.IterLimit {
+		panic(VerifLexLimitHit{What: "lexer iterations", Count: VerifLex.Iter})
+	}
+}
+
+func verifTLNext(_ *TLexer) {
+	VerifLex.TLNext++
+	if VerifLex.TLNextLimit > 0 && VerifLex.TLNext > VerifLex.TLNextLimit {
+		panic(VerifLexLimitHit{What: "TLexer.Next calls", Count: VerifLex.TLNext})
+	}
+}
+
+// VerifSnapshotDepth returns the number of open snapshots.
+func (tl *TLexer) VerifSnapshotDepth() int { return len(tl.pointers) }
+
+// VerifReadPos returns the read pointer (index of the current token, -1 before the first).
+func (tl *TLexer) VerifReadPos() int { return tl.readp }
+
+// VerifCached returns the number of tokens scanned so far.
+func (tl *TLexer) VerifCached() int { return tl.writep }
+
+// VerifFromTo returns the lexer's raw from/to scanning positions.
+func (l *Lexer) VerifFromTo() (int, int) { return l.from, l.to }
